@@ -4,6 +4,7 @@
 package remote
 
 import (
+	"crypto/tls"
 	"fmt"
 	"os"
 	"strconv"
@@ -56,6 +57,7 @@ type World struct {
 	seq   int
 	nodes map[int]*Node
 	alias map[int]bool // senders address this node by another spelling of its address
+	tls   bool         // remotes are configured WithTLS (handshake not simulated; the dial path differs)
 }
 
 func (w *World) tick() int { w.seq++; return w.seq }
@@ -134,7 +136,11 @@ func (w *World) StartNode(n int, recorders []string) (*Node, error) {
 	defer simrt.SetNode(old)
 	simrt.NodeUp(n)
 	nd := &Node{N: n, Addr: addrOf(n), Recs: map[string]*recorder{}, up: true}
-	nd.R = hremote.New(nd.Addr, hremote.NewConfig())
+	cfg := hremote.NewConfig()
+	if w.tls {
+		cfg = cfg.WithTLS(&tls.Config{InsecureSkipVerify: true})
+	}
+	nd.R = hremote.New(nd.Addr, cfg)
 	e, err := actor.NewEngine(actor.NewEngineConfig().WithRemote(nd.R))
 	if err != nil {
 		return nil, err
@@ -437,8 +443,9 @@ func setup(rc *core.RunCtx) *World {
 	}
 	simrt.SetBigInboxCap(1024)
 	simnet.Net().MaxLatency = g.Range(0, 3)
-	rc.Scen("batch=%d maxLatencyIdx=%d", b, simnet.Net().MaxLatency)
-	return &World{rc: rc, nodes: map[int]*Node{}}
+	useTLS := g.Bool(0.2)
+	rc.Scen("batch=%d maxLatencyIdx=%d tls=%v", b, simnet.Net().MaxLatency, useTLS)
+	return &World{rc: rc, nodes: map[int]*Node{}, tls: useTLS}
 }
 
 func genOps(g simrt.Gen, rc *core.RunCtx, nodes []int, targets []string, ntasks, maxOps int, bad bool) [][]sendOp {
